@@ -32,9 +32,10 @@ func main() {
 	var mutations multiFlag
 	flag.Var(&mutations, "mutate", "<file under repo>=<replacement file>: build with the replacement instead (mutation testing; repeatable)")
 	onlyOverlay := flag.Bool("overlay-only", false, "only write the overlay file and print its path")
+	suffix := flag.String("suffix", "", "suffix of the overlay work directory (builds running at the same time need directories of their own)")
 	flag.Parse()
 
-	work := filepath.Join(*verif, ".work", "overlay-"+*variant)
+	work := filepath.Join(*verif, ".work", "overlay-"+*variant+*suffix)
 	if err := os.MkdirAll(work, 0o755); err != nil {
 		fatalf("%v", err)
 	}
